@@ -264,7 +264,15 @@ def export_case(rec, rng, cid, scratch):
     else:
         extra = None
     out = scratch / ("exp_ts_%d_%d" % (cid[0], cid[1]))
-    rm.export_training_set(out)
+    try:
+        rm.export_training_set(out)
+    except BaseException as e:  # noqa
+        rec.evaluated(dg=("export", cid, "raises"))
+        rec.violation("export/raises/" + type(e).__name__,
+                      "export_training_set raised %s: %s"
+                      % (type(e).__name__, str(e)[:80]),
+                      {"id": cid, "kind": "export"})
+        return
     rm = RateManager(h5)          # container order as it is on disk now
     X, y, names = IR.load_training_set(out, which_type="all",
                                        replace_inf=False,
@@ -281,7 +289,12 @@ def export_case(rec, rng, cid, scratch):
               list(names) == IF.get_feature_names(), "export/shape",
               "exported set has shape %s for %d curves" % (X.shape, ncur),
               case)
-    Xg, yg = rm.get_training_set(which_type="all")
+    try:
+        Xg, yg = rm.get_training_set(which_type="all")
+    except BaseException as e:  # noqa
+        rec.violation("export/get_training_set-raises/" + type(e).__name__,
+                      "get_training_set raised %s" % str(e)[:80], case)
+        return
     for row, en in enumerate(order):
         rate, idnt = by_enum[en]
         feats = IF.compute_features(idnt)
